@@ -32,6 +32,8 @@ type recorder struct {
 	h      http.Header
 	status int
 	buf    bytes.Buffer
+	gate   <-chan struct{} // when set, the first Write blocks until the gate is closed (slow client)
+	gated  bool
 }
 
 func (w *recorder) Header() http.Header { return w.h }
@@ -43,6 +45,10 @@ func (w *recorder) WriteHeader(s int) {
 func (w *recorder) Write(p []byte) (int, error) {
 	if w.status == 0 {
 		w.status = http.StatusOK
+	}
+	if w.gate != nil && !w.gated {
+		w.gated = true
+		<-w.gate
 	}
 	return w.buf.Write(p)
 }
@@ -206,6 +212,12 @@ type Handler func(w http.ResponseWriter, r *http.Request)
 // Start issues a GET in its own goroutine. onEvent (optional) is invoked for hook events of
 // this request; it runs with internal gohlslib locks held and must not block.
 func Start(h Handler, rawURL string, onEvent func(point string)) *Req {
+	return StartGated(h, rawURL, onEvent, nil)
+}
+
+// StartGated is Start with a slow client: the first body Write of the handler blocks until gate
+// is closed.
+func StartGated(h Handler, rawURL string, onEvent func(point string), gate <-chan struct{}) *Req {
 	u, err := url.Parse("http://mux.local/" + rawURL)
 	if err != nil {
 		panic(err)
@@ -216,7 +228,7 @@ func Start(h Handler, rawURL string, onEvent func(point string)) *Req {
 	reqs.Store(r, q)
 	q.CallSeq = Stamp()
 	go func() {
-		rec := &recorder{h: http.Header{}}
+		rec := &recorder{h: http.Header{}, gate: gate}
 		resp := &Resp{}
 		defer func() {
 			if p := recover(); p != nil {
